@@ -111,6 +111,14 @@ Section Items.
   Variable O : oracles.
   Variable oitems : expr -> list item.     (* the token stream of the text o_e2s O returns *)
   Variable okey : string -> rkeyi.         (* the record_key_static pair of the text o_record_key O returns *)
+  (* version switch: true = fixes/C07-crlf-lines.diff (the via/into/where arm of
+     format_binary_op_multiline re-assembles the right operand with split('\n'): the identity);
+     false = formatter.rs as pinned: the re-assembly goes through str::lines(), which drops the "\r"
+     of every "\r\n" — inside a string literal of the right operand this changes the literal
+     (finding F55, class crlf-lines).  `orelined r s` stands for the token stream of such a changed
+     text s of r; nothing is known about it. *)
+  Variable lines_fixed : bool.
+  Variable orelined : expr -> string -> list item.
   Local Notation needs_parens := (o_needs_parens O).
   Local Notation postfix_parens := (o_postfix_parens O).
   Local Notation lambda_body_parens := (o_lambda_body_parens O).
@@ -223,8 +231,10 @@ Section Items.
         let rs := render (wrap_parens rp (recd r i)) in
         let first_line_combined := (render leftd +++ " " +++ op_str +++ " " +++ first_line rs)%string in
         if (i + String.length first_line_combined <=? w)%nat then
-          (* both the re-assembled (Relined) and the plain right operand are the same tokens *)
-          left ++ IOp (binop_rule op) :: wrapb rp (rec r i)
+          (* the re-assembled right operand: the same text (same tokens) unless lines() changed it *)
+          if negb lines_fixed && (contains_nl rs && negb (String.eqb (relined rs) rs))
+          then left ++ IOp (binop_rule op) :: orelined r (relined rs)
+          else left ++ IOp (binop_rule op) :: wrapb rp (rec r i)
         else left ++ IOp (binop_rule op) :: wrapb rp (rec r i)
       else
         left ++ IOp (binop_rule op) :: wrapb rp (rec r (i + INDENT_SIZE)).
@@ -283,8 +293,9 @@ End Items.
 
 (* format_expr *)
 Definition format_expr_items (O : oracles) (oitems : expr -> list item) (okey : string -> rkeyi)
+           (lines_fixed : bool) (orelined : expr -> string -> list item)
            (e : expr) (max_columns : option nat) : list item :=
-  fmt_items O oitems okey (match max_columns with Some n => n | None => DEFAULT_MAX_COLUMNS end) e 0.
+  fmt_items O oitems okey lines_fixed orelined (match max_columns with Some n => n | None => DEFAULT_MAX_COLUMNS end) e 0.
 
 (* ------------------------------------------------------------------ the oracles as Printer.v has them *)
 (* ast_to_source.rs as transcribed by Printer.v (property C07's printer, any version `fx` / `pol`),
@@ -327,6 +338,42 @@ Fixpoint lam_ok (e : expr) : bool :=
   | EUn _ x => lam_ok x
   | EFact x => lam_ok x
   | ESpread x => lam_ok x
+  | _ => true
+  end.
+
+(* no string literal / quoted record key of the tree contains a carriage return (the exclusion of
+   finding class crlf-lines) *)
+Definition no_cr (s : string) : bool := negb (contains_char CRc s).
+Fixpoint cr_free (e : expr) : bool :=
+  match e with
+  | EStr s => no_cr s
+  | EList items =>
+      (fix go (l : list (commented expr)) : bool :=
+         match l with [] => true | Cm _ x _ :: l' => cr_free x && go l' end) items
+  | ERec entries =>
+      (fix go (l : list (commented rentry)) : bool :=
+         match l with
+         | [] => true
+         | Cm _ (REntry k v) _ :: l' =>
+             match k with KStatic s => no_cr s | KDyn d => cr_free d | KSpread x => cr_free x | _ => true end
+             && cr_free v && go l'
+         end) entries
+  | ELam _ body => cr_free body
+  | ECond c t f => cr_free c && cr_free t && cr_free f
+  | EDo stmts (Cm _ ret _) =>
+      (fix go (l : list (commented expr)) : bool :=
+         match l with [] => true | Cm _ x _ :: l' => cr_free x && go l' end) stmts && cr_free ret
+  | EAssign _ v => cr_free v
+  | EOutput x => cr_free x
+  | ECall f args =>
+      cr_free f && (fix go (l : list expr) : bool :=
+                      match l with [] => true | a :: l' => cr_free a && go l' end) args
+  | EAccess x i => cr_free x && cr_free i
+  | EDot x _ => cr_free x
+  | EBin _ l r => cr_free l && cr_free r
+  | EUn _ x => cr_free x
+  | EFact x => cr_free x
+  | ESpread x => cr_free x
   | _ => true
   end.
 
